@@ -341,3 +341,30 @@ def generate():
 
 def main(outdir):
     return write_if_changed(outdir + "/GenKinematics.v", generate())
+
+
+def analyse():
+    """per method: guards / reads (transitive) / classifiers / vector-valued, as the generator sees them"""
+    tree, path = parse(SRC)
+    cls = find_class(tree, "Particle")
+    attrs = getters(cls, path)
+    ms = {name: Method(name, find_func(cls, name), attrs, path) for name in METHODS}
+
+    def closure(n, field, seen=()):
+        out = list(getattr(ms[n], field))
+        for c in ms[n].calls:
+            if c in seen:
+                raise TranslateError("recursive method calls")
+            for a in closure(c, field, seen + (n,)):
+                if a not in out:
+                    out.append(a)
+        return out
+    names = sorted(attrs, key=lambda a: attrs[a][0])
+    out = {}
+    for n in METHODS:
+        vr, mr = closure(n, "value_reads"), closure(n, "member_reads")
+        out[n] = {"guards": list(ms[n].guards or []),
+                  "reads": [a for a in names if a in vr or a in mr],
+                  "classifiers": [a for a in names if a in mr and a not in vr],
+                  "vec": ms[n].vec}
+    return out, {a: attrs[a] for a in names}
